@@ -77,7 +77,6 @@ let run (line : string) : string =
   | "folded" -> full (d (folded_hypercube (narg 0)))
   | "kneser" -> full (d (kneser (narg 0) (narg 1)))
   | "bikneser" -> full (d (bipartite_kneser (narg 0) (narg 1)))
-  | "bikneserw" -> wfonly (d (bipartite_kneser (narg 0) (narg 1)))
   | "circulant" -> full (d (circulant (narg 0) (List.map z_of_int (itoks ()))))
   | "circbip" -> full (d (circulant_bipartite (narg 0) (narg 1) (List.map z_of_int (itoks ()))))
   | "petersen" -> full (d (generalised_petersen (narg 0) (narg 1)))
